@@ -39,6 +39,20 @@ def run(ctx, replay=None):
             ml = case.get('maxlag')
             if isinstance(ml, float) and ml >= 1:
                 continue          # absolute maxlag: truncated distances, the metric change is C11's subject
+            if rng.random() < 0.3:
+                # the caller rescales the array returned by `bins` in place (what a normalised plot does): the instance is unaffected
+                try:
+                    V = vc.build(case)
+                    _ = V.experimental, V.bin_count
+                    b_ = V.bins
+                    b_ /= max(1.0, float(np.nanmax(b_))) * 2.0
+                except Exception as e:
+                    ctx.count('living_rejected', type(e).__name__)
+                    continue
+                nliving += 1
+                ctx.count('living_instance', 'returned-bins-rescaled')
+                vc.eval_structure_case(ctx, model, dict(case, living_note='the array returned by bins was rescaled in place by the caller'), prop='C01', V=V)
+                continue
             other = rng.choice([m for m in ('euclidean', 'cityblock', 'chebyshev') if m != case['dist_func']])
             try:
                 V = vc.build(case)
